@@ -387,7 +387,7 @@ PROPS["C17"]["explanation"] += (" C17_missed_not_masked / C17_pass_ok (the loop 
     "what the pass reported and what it left in the out-buffer must equal Model.Core.heartbeat_timers on the entries "
     "due; oracle: 2h of silence is reported in the pass that finds it, less is not.")
 PROPS["C06"]["check_mods"].append("C06core")
-PROPS["C06"]["drivers"].append({"name": "c06core", "n_quick": 48, "n_thorough": 2000, "timeout": 3000})
+PROPS["C06"]["drivers"].append({"name": "c06core", "n_quick": 48, "n_thorough": 640, "timeout": 3000})
 PROPS["C06"]["rule"] += (" At the level of the I/O thread (c06core: real handle_steady_event -> Inner::read_from_stream -> "
     "FrameBuffer through the CoreProbe): 12-70 deliveries with bodies of 0 / 1 / 700 / 3000 / 4088 / 5000 bytes for one "
     "consumer arrive in ONE readiness episode (tens to hundreds of KiB before the socket would block), or the same "
